@@ -133,6 +133,12 @@ def _source_forms():
                       ("funsorCopyForm", ["Funsor", "__copy__"])):
         d = _find_def(t_terms, path)
         forms[key] = " ".join(ast.unparse(d.body[-1]).split()) if d else "MISSING"
+    try:
+        t_tensor = ast.parse((REPO / "funsor" / "tensor.py").read_text())
+        tm = _find_def(t_tensor, ["TensorMeta", "__call__"])
+        forms["tensorMetaCallForm"] = " ;; ".join(" ".join(ast.unparse(n).split()) for n in tm.body) if tm else "MISSING"
+    except (OSError, SyntaxError):
+        forms["tensorMetaCallForm"] = "MISSING"
     fm = _find_def(t_terms, ["FunsorMeta", "__init__"])
     forms["metaInitForm"] = " ;; ".join(" ".join(ast.unparse(n).split()) for n in fm.body) if fm else "MISSING"
     # the op instance cache: key construction and lookup/insert
@@ -367,6 +373,7 @@ class Recipe:
 
 T = "funsor.terms."
 D = "funsor.domains.ArrayType"
+TT = "funsor.tensor.Tensor"
 
 
 GS_POOL = [("rev", "slice(None, None, -1)"), ("rev0", "slice(0, None, -1)"), ("s3", "slice(None, 3)"),
@@ -537,13 +544,43 @@ RECIPES = [
     Recipe("t0d2", "funsor.tensor.Tensor", "(A[0], (), 2)", needs=("A0",), interps=("reflect", "lazy"),
            pk=("reflect",)),
     Recipe("zb", T + "Variable", "('zb', Bint[3])", blob=True, pk=("reflect",)),
+    # Tensor leaves on VIEWS of one buffer (non-contiguous, negative stride, 0-d, read-only): the key is the
+    # identity of the array object passed, so the same view twice is one Tensor, equal-content views are not
+    Recipe("tv_VT", TT, "(A[3],)", needs=("VT",), core=True, pk=("reflect", "eager"), ri=("reflect", "lazy")),
+    Recipe("tv_VTt", TT, "(A[3], (), 'real')", needs=("VT",)),
+    Recipe("tv_VTn", TT, "(A[3], None)", needs=("VT",)),
+    Recipe("tv_VTi", TT, "(A[3], OrderedDict(i=Bint[4]))", needs=("VT",)),
+    Recipe("tv_VM", TT, "(A[4],)", needs=("VM",)),
+    Recipe("tv_VC", TT, "(A[5],)", needs=("VC",), pk=("lazy",)),
+    Recipe("tv_VCi", TT, "(A[5], OrderedDict(i=Bint[3]))", needs=("VC",)),
+    Recipe("tv_VCt", TT, "(A[5], (('i', Bint[3]),), 'real')", needs=("VC",)),
+    Recipe("tv_VS", TT, "(A[6],)", needs=("VS",)),
+    Recipe("tv_VSt", TT, "(A[6], ())", needs=("VS",)),
+    Recipe("tv_VR", TT, "(A[7],)", needs=("VR",), pk=("reflect",)),
+    Recipe("tv_VRi", TT, "(A[7], OrderedDict(i=Bint[3]))", needs=("VR",)),
+    Recipe("tv_VRt", TT, "(A[7], (), 'real')", needs=("VR",)),
+    Recipe("tv_VZ", TT, "(A[8],)", needs=("VZ",)),
+    Recipe("tv_VZt", TT, "(A[8], (), 'real')", needs=("VZ",)),
+    Recipe("tv_VO", TT, "(A[9],)", needs=("VO",), pk=("reflect",)),
+    Recipe("tv_VOt", TT, "(A[9], None, 'real')", needs=("VO",)),
+    Recipe("tv_B", TT, "(A[2],)", needs=("B",)),
+    Recipe("bvt", T + "Binary", "(ops.lt, H['x'], H['tv_VT'])", needs=("x", "tv_VT"),
+           pk=("reflect", "lazy"), ri=("reflect", "lazy")),
+    Recipe("bvr", T + "Binary", "(ops.lt, H['x'], H['tv_VR'])", needs=("x", "tv_VR"), ri=("reflect",)),
+    Recipe("tuv", T + "Tuple", "((H['tv_VT'], H['tv_VM'], H['tv_VT']),)", needs=("tv_VT", "tv_VM"),
+           pk=("reflect", "eager")),
     Recipe("lamz", T + "Lambda", "(H['ib'], H['zb'])", needs=("ib", "zb"), pk=("reflect", "lazy", "eager"),
            ri=("reflect",)),
 ]
 OP_RECIPES.extend(_op_recipes())
 RECIPES = RECIPES + OP_RECIPES
 RBY = {r.name: r for r in RECIPES}
-ARR_SLOTS = {"A0": 0, "A1": 1}
+ARR_SLOTS = {"A0": 0, "A1": 1, "B": 2, "VT": 3, "VM": 4, "VC": 5, "VS": 6, "VR": 7, "VZ": 8, "VO": 9}
+# array group k -> the slots (re-)allocated together: 0, 1 = the two plain buffers; 2 = a third buffer B with
+# its VIEWS (distinct ndarray objects sharing B's memory): transpose, moveaxis (same content as the transpose,
+# another object), column slice, strided slice, negative-stride slice, 0-d view, read-only view
+ARR_GROUPS = {0: [0], 1: [1], 2: [2, 3, 4, 5, 6, 7, 8, 9]}
+NO_LIVENESS_SLOTS = {2}      # B is kept alive by its views (ndarray.base), which the model does not represent
 SLOT_P = 500                      # result of the last pickle / reinterpret
 SLOT_TMP = 900                    # copies of arrays made by unpickling (released right after)
 RSLOT = {r.name: 100 + k for k, r in enumerate(RECIPES)}
@@ -562,6 +599,17 @@ def full_collect():
 
 
 VALS = (0.0, 1.0, 2.0)
+
+
+def new_group(k, rng):
+    """{slot: ndarray} for array group k"""
+    if k != 2:
+        return {k: new_array(k, rng)}
+    b = np.empty((3, 4))
+    b[...] = np.arange(12.0).reshape(3, 4) + VALS[rng.randrange(0, 3)]
+    ro = b.view()
+    ro.flags.writeable = False
+    return {2: b, 3: b.T, 4: np.moveaxis(b, 0, 1), 5: b[:, 1:3], 6: b[::2, ::3], 7: b[::-1], 8: b[0, 0, ...], 9: ro}
 
 
 def new_array(k, rng):
@@ -589,6 +637,7 @@ class World:
         self.A = {}
         self.P = None
         self.B = {}                # recipe name -> (pickle bytes, model tokens, class index, cyc, mcls)
+        self.data_is_arg = {True: 0, False: 0}
         self.pinned = []           # [(slot, table name, mcls, args tuple, obj)]
         self.tables = {}           # table name -> dict object
         import importlib
@@ -647,8 +696,8 @@ PINNED_OPS = ["exp", "lt", "mul", "add", "getitem", "sum", "amax", "prod", "argm
 
 
 def _warm_up(w, rng):
-    for k in (0, 1):
-        w.A[k] = new_array(k, rng)
+    for k in ARR_GROUPS:
+        w.A.update(new_group(k, rng))
     for interp in ("reflect", "lazy", "eager"):
         for r in RECIPES:
             if interp in r.interps and all((n in ARR_SLOTS) or (n in w.H) for n in r.needs):
@@ -765,6 +814,8 @@ def alphabet(recipes, full=False):
         if r.ri:
             al.append(("ri", r.name, None))
     al += [("arr", 0), ("arr", 1), ("gc",), ("dropP",)]
+    if full:
+        al.append(("arr", 2))
     return al
 
 
@@ -884,21 +935,27 @@ class Run:
             self.req.append(["mk", slot, w.cls_index[table], table.startswith("funsor.domains."), Q(mcls),
                              toks, w.ids(obj)])
         self.min_stamp = len(w.pinned)
-        for k in (0, 1):
+        for k in ARR_GROUPS:
             self.alloc_array(k)
         self.observe(("prelude",))
 
     def alloc_array(self, k):
+        """(re-)allocate array group k: release every array of the group, then allocate them anew"""
         w = self.w
-        had = k in w.A
+        slots = ARR_GROUPS[k]
+        had = slots[0] in w.A
         if had:
-            del w.A[k]
-        w.A[k] = new_array(k, self.rng)      # right after the release: provoke address reuse
+            for sl in slots:
+                del w.A[sl]
+        w.A.update(new_group(k, self.rng))      # right after the release: provoke address reuse
         if had:
-            self.req.append(["drop", k])
+            for sl in slots:
+                self.req.append(["drop", sl])
             self.req.append(["sweep"])
-        self.req.append(["alloc", k, w.ids(w.A[k])])
-        self.tracked_arr.append((self.nobs, k, weakref.ref(w.A[k])))
+        for sl in slots:
+            self.req.append(["alloc", sl, w.ids(w.A[sl])])
+            if sl not in NO_LIVENESS_SLOTS:
+                self.tracked_arr.append((self.nobs, sl, weakref.ref(w.A[sl])))
 
     def observe(self, sym):
         w = self.w
@@ -1025,8 +1082,9 @@ def stale_request(r, args, obj, w):
         if have != tuple(args):
             return f"{r.expr} returned an op whose bound parameters are {have!r}, requested {tuple(args)!r}"
     elif isinstance(obj, Tensor) and r.needs and r.needs[0] in ARR_SLOTS:
-        if obj.data is not w.A[ARR_SLOTS[r.needs[0]]]:
-            return f"{r.name}: Tensor carries a different array than the one passed"
+        # fidelity fact, counted not gated: the funsor stores the very array it was keyed by.  (The gate is
+        # identity: same array object <=> same Tensor, through the model comparison.)
+        w.data_is_arg[obj.data is w.A[ARR_SLOTS[r.needs[0]]]] += 1
     elif isinstance(obj, Unary) and r.cls.endswith("Unary") and r.expr is None:
         if obj.op is not args[0] or obj.arg is not args[1]:
             return f"{r.name}: Unary(op, arg) returned a term with op {obj.op!r} / another arg, requested {args[0]!r}"
@@ -1168,7 +1226,8 @@ def oracle_violation(w, expect_same):
 
 ALIASES = [("n1", "n1f"), ("n1", "n1t"), ("n1", "n1n"), ("nz", "nnz"), ("n1b3", "n1b3f"), ("t0", "t0t"),
            ("t0n", "t0nn"), ("sl", "sl2"), ("sl", "sl3"), ("d5", "d5a"), ("r5", "r5a"),
-           ("g1", "g1k"), ("bs23", "bs23a"), ("gs_rev", "gs_revk"), ("gs_s3", "gs_s3n"), ("gs_i2", "gs_i2t"), ("sum_m1", "sum_m1k"), ("sum_m2", "sum_m2k"), ("sum_1", "sum_1f"), ("sum_1", "sum_1t"),
+           ("g1", "g1k"), ("tv_VT", "tv_VTt"), ("tv_VT", "tv_VTn"), ("tv_VS", "tv_VSt"),
+           ("tv_VCi", "tv_VCt"), ("tv_VR", "tv_VRt"), ("tv_VZ", "tv_VZt"), ("tv_VO", "tv_VOt"), ("bs23", "bs23a"), ("gs_rev", "gs_revk"), ("gs_s3", "gs_s3n"), ("gs_i2", "gs_i2t"), ("sum_m1", "sum_m1k"), ("sum_m2", "sum_m2k"), ("sum_1", "sum_1f"), ("sum_1", "sum_1t"),
            ("sum_1", "sum_1z"), ("sum_0", "sum_0f"), ("sum_0", "sum_0n"), ("sum_m1kd", "sum_m1kd1"),
            ("amax_m2", "amax_m2k"), ("prod_m2", "prod_m2k"), ("argmax_m2", "argmax_m2k"), ("rs_23", "rs_23f"),
            ("unsq_0", "unsq_0f")]
@@ -1179,7 +1238,8 @@ DISTINCT = [("n1", "n1b3"), ("x", "xb"), ("t0", "t0b"), ("t0", "t0n"), ("sl", "s
             ("uargmax_m1", "uargmax_m2"), ("unsq_m1", "unsq_m2"), ("stk_m1", "stk_m2"), ("rs_m1", "rs_m2"),
             ("gm1", "gm2"), ("rs_23", "rs_32"), ("sum_m1", "sum_m1kd"), ("sum_m2", "sum_m3"), ("sum_1", "sum_0"),
             ("sum_m1", "amax_m1"), ("bs23", "bs7"), ("bs51", "d5"), ("bs213", "bs23"), ("r7", "r71"),
-            ("r7", "bs7"), ("vbs51", "v5"), ("gs_rev", "gs_rev0"), ("ugs_rev", "ugs_rev0"), ("gs_s3", "gs_s03"),
+            ("r7", "bs7"), ("vbs51", "v5"), ("tv_VT", "tv_VM"), ("tv_VT", "tv_VTi"), ("tv_VO", "tv_B"),
+            ("tv_VR", "tv_B"), ("tv_VC", "tv_VCi"), ("bvt", "bvr"), ("gs_rev", "gs_rev0"), ("ugs_rev", "ugs_rev0"), ("gs_s3", "gs_s03"),
             ("gs_s03", "gs_s031"), ("ugs_s3", "ugs_s03"), ("gs_st2", "gs_s0st2"), ("ugs_st2", "ugs_s0st2"),
             ("gs_full", "gs_full4"), ("gs_full", "gs_full1"), ("ugs_full", "ugs_full4"), ("gs_i2", "gs_s23"),
             ("ugs_i2", "ugs_s23"), ("gs_c1", "gs_c01"), ("gs_el_rev", "gs_el_rev0"),
@@ -1214,9 +1274,9 @@ def run_py_oracle(w, hist, rng):
     """Execute `hist` on the real side only, checking the Python oracle after each step.
     Returns a description of the first violation or None."""
     w.built_from = {}
-    arr_gen = {0: 0, 1: 0}
-    for k in (0, 1):
-        w.A[k] = new_array(k, rng)
+    arr_gen = {sl: 0 for sl in ARR_SLOTS.values()}
+    for k in ARR_GROUPS:
+        w.A.update(new_group(k, rng))
     dropped = []
     try:
         for n, sym in enumerate(hist):
@@ -1242,9 +1302,10 @@ def run_py_oracle(w, hist, rng):
             elif kind == "dropP":
                 w.P = None
             elif kind == "arr":
-                del w.A[sym[1]]
-                w.A[sym[1]] = new_array(sym[1], rng)
-                arr_gen[sym[1]] += 1
+                for sl in ARR_GROUPS[sym[1]]:
+                    del w.A[sl]
+                    arr_gen[sl] += 1
+                w.A.update(new_group(sym[1], rng))
             elif kind == "gc":
                 full_collect()
             elif kind == "dumps":
@@ -1321,7 +1382,13 @@ def python_snippet(hist, note):
              "from funsor.terms import Align, Binary, Lambda, Number, Reduce, Slice, Stack, Subs, Tuple, Unary, Variable",
              "funsor.set_backend('numpy')",
              "NAN = math.nan",
-             "A = {0: np.arange(6.).reshape(2, 3), 1: np.arange(6.).reshape(2, 3) + 1}",
+             "def group(k):",
+             "    if k != 2: return {k: np.arange(6.).reshape(2, 3) + k}",
+             "    b = np.arange(12.).reshape(3, 4); ro = b.view(); ro.flags.writeable = False",
+             "    return {2: b, 3: b.T, 4: np.moveaxis(b, 0, 1), 5: b[:, 1:3], 6: b[::2, ::3], 7: b[::-1], 8: b[0, 0, ...], 9: ro}",
+             "GROUPS = {0: [0], 1: [1], 2: [2, 3, 4, 5, 6, 7, 8, 9]}",
+             "A = {}",
+             "for k in GROUPS: A.update(group(k))",
              "H = {}; P = None; B = {}; log = []"]
     for n, sym in enumerate(hist):
         kind = sym[0]
@@ -1334,7 +1401,8 @@ def python_snippet(hist, note):
         elif kind == "dropP":
             lines.append("P = None")
         elif kind == "arr":
-            lines.append(f"del A[{sym[1]}]; A[{sym[1]}] = np.arange(6.).reshape(2, 3) + {n % 3}")
+            lines.append(f"for s in GROUPS[{sym[1]}]: del A[s]")
+            lines.append(f"A.update(group({sym[1]}))")
         elif kind == "gc":
             lines.append("while gc.collect(): pass")
         elif kind == "pk":
@@ -1426,6 +1494,13 @@ def observations(ctx):
     except Exception as e:
         obs["Array[7.0, ()] while Bint[7] is live"] = f"raises {type(e).__name__}"
     obs["pickle round trip of a Tensor is the same object"] = pickle.loads(pickle.dumps(t)) is t
+    g = np.float64(1.5)
+    obs["Tensor(np.float64 scalar) twice is one object (generic -> fresh ndarray each call)"] = Tensor(g) is Tensor(g)
+    vt = a.T
+    obs["Tensor(a.T) twice (same view object) is one object"] = Tensor(vt) is Tensor(vt)
+    obs["Tensor(a.T).data is the view passed"] = Tensor(vt).data is vt
+    obs["Tensor(a.T) is Tensor(a.T) (two view objects)"] = Tensor(a.T) is Tensor(a.T)
+    del vt, g
     obs["Number(-0.0) is Number(0.0)"] = Number(-0.0) is Number(0.0)
     obs["Number(1) is Number(1.0) is Number(True)"] = Number(1) is Number(1.0) and Number(1) is Number(True)
     obs["Number(float('nan')) is Number(float('nan'))"] = Number(float("nan")) is Number(float("nan"))
@@ -1601,6 +1676,8 @@ def _correspond(ctx):
             all_runs += run_batch(ctx, w, rh[i:i + 100], "random")
             if len([f for f in ctx.failures if f.witness is not None]) >= 5:
                 break
+        ctx.count("fidelity:Tensor.data-is-the-array-passed", w.data_is_arg[True])
+        ctx.count("fidelity:Tensor.data-is-another-array", w.data_is_arg[False])
         if not [f for f in ctx.failures if f.witness is not None]:
             binder_stream(ctx, 40 if ctx.tier == "quick" else 400)
             observations(ctx)
